@@ -175,6 +175,12 @@ func init() {
 		// at every composed position.  A merge must not disturb the definitions it reads.
 		nShared := len(pcs)
 		pcs = append(pcs, sharedDefinitionCases(c, "c11-shared-definitions")...)
+		// two nodes under one Go type name that differ only inside an allOf below them: each keeps its own conjunction
+		for _, pc := range nearDupCases(c, "c11-near-duplicates") {
+			if strings.Contains(pc.Labels[0], "allOf") {
+				pcs = append(pcs, pc)
+			}
+		}
 		res := runCases(c, pcs)
 		fails := verdictOracle(c, res, "allOf/anyOf", nil)
 		// the outer type exposes the union of the branches' properties
